@@ -14,8 +14,8 @@ SOUND = {"sound", "sound_env", "sound_mac", "errkind", "strict", "nonid", "ids_e
 ALL_FNS = [
     ER + "InternalError::into_custom", ER + "ProtocolError::into_custom", ER + "check_slice_size", ER + "check_slice_size_atleast",
     S + "Input::from", S + "Input::from_owned", S + "Input::from_label", S + "Input::iter", S + "Input::to_array_2", S + "Input::to_array_3",
-    # prelude contracts anchored by body text (generic loops over an opaque iterator; bounded Kani harness): a changed body makes them 'refused'
-    S + "UpdateExt::chain_iter", S + "MacExt::update_iter",
+    # the two generic chunk loops (blanket impls), verified against the prelude's iterator model
+    S + "T::chain_iter", S + "T::update_iter",
     "ksf::Identity::hash", "ksf::Argon2::hash", G + "i2osp_2", G + "KeGroup::derive_auth_keypair",
     GE + "serialize_pk", GE + "deserialize_pk", GE + "hash_to_scalar", GE + "public_key", GE + "is_zero_scalar", GE + "diffie_hellman", GE + "serialize_sk", GE + "deserialize_sk", GE + "derive_auth_keypair",
     K + "KeyPair::public", K + "KeyPair::private", K + "KeyPair::from_private_key", K + "KeyPair::from_private_key_slice", K + "KeyPair::generate_random",
@@ -105,7 +105,7 @@ PROPS["C02"] = {
 PROPS["C03"] = {
     "alternatives": [{
         "name": "mac-gate",
-        "clauses": [(S + "UpdateExt::chain_iter", "*"), (S + "MacExt::update_iter", "*"), (T + "TripleDh::finish_ke", "*"), (O + "ServerLogin::finish", "*"), (T + "Ke3Message::deserialize", "*"), (M + "CredentialFinalization::deserialize", "*"), (ER + "check_slice_size", "*"), (O + "ServerLogin::start", "state")],
+        "clauses": [(S + "T::chain_iter", "*"), (S + "T::update_iter", "*"), (T + "TripleDh::finish_ke", "*"), (O + "ServerLogin::finish", "*"), (T + "Ke3Message::deserialize", "*"), (M + "CredentialFinalization::deserialize", "*"), (ER + "check_slice_size", "*"), (O + "ServerLogin::start", "state")],
          "supporting": [(T + "Ke2State::deserialize", "*"), (T + "Ke2State::serialize", "*"), (O + "ServerLogin::deserialize", "*"), (O + "ServerLogin::serialize", "*"), (T + "TripleDh::generate_ke2", "rfc")],
          "theorems": ["thm_c03_exact", "thm_c03_expected_tag", "thm_c03_reload"],
     }],
@@ -118,7 +118,7 @@ PROPS["C03"] = {
 PROPS["C04"] = {
     "alternatives": [{
         "name": "server-mac-over-transcript",
-        "clauses": [(S + "UpdateExt::chain_iter", "*"), (S + "MacExt::update_iter", "*"), (O + "ClientLogin::finish", "reflect"), (O + "ClientLogin::finish", "sound_mac"), (O + "ClientLogin::finish", "errkind"), (O + "ClientLogin::finish", "rp"), (T + "TripleDh::generate_ke3", "sound"), (T + "TripleDh::generate_ke3", "errkind"), (M + "CredentialResponse::deserialize", "*"), (M + "CredentialResponse::serialize_without_ke", "*"), (M + "CredentialRequest::serialize_iter", "*"), (T + "Ke2Message::to_bytes_without_mac", "*"), (T + "Ke1Message::serialize", "*"), (O + "MaskedResponse::iter", "*"), (T + "Ke2Message::deserialize", "*"), (O + "MaskedResponse::deserialize", "*")],
+        "clauses": [(S + "T::chain_iter", "*"), (S + "T::update_iter", "*"), (O + "ClientLogin::finish", "reflect"), (O + "ClientLogin::finish", "sound_mac"), (O + "ClientLogin::finish", "errkind"), (O + "ClientLogin::finish", "rp"), (T + "TripleDh::generate_ke3", "sound"), (T + "TripleDh::generate_ke3", "errkind"), (M + "CredentialResponse::deserialize", "*"), (M + "CredentialResponse::serialize_without_ke", "*"), (M + "CredentialRequest::serialize_iter", "*"), (T + "Ke2Message::to_bytes_without_mac", "*"), (T + "Ke1Message::serialize", "*"), (O + "MaskedResponse::iter", "*"), (T + "Ke2Message::deserialize", "*"), (O + "MaskedResponse::deserialize", "*")],
          "supporting": [(T + "TripleDh::generate_ke3", "ctx_err"), (T + "TripleDh::generate_ke3", "*"), (T + "derive_3dh_keys", "*"), (T + "hkdf_expand_label_extracted", "*"), (T + "hkdf_expand_label", "*"), (T + "derive_secrets", "*")],
          "theorems": ["thm_c04_mac_only", "thm_c04_fields", "thm_transcript_agreement", "lemma_preamble_injective", "lemma_frame_split", "lemma_fixed_split"],
         "kani": {"quick": [("api", "x25519_pk_canonical")], "thorough": []},
@@ -133,7 +133,7 @@ PROPS["C04"] = {
 PROPS["C05"] = {
     "alternatives": [{
         "name": "framed-binding",
-        "clauses": [(S + "UpdateExt::chain_iter", "*"), (S + "MacExt::update_iter", "*"), (S + "Input::from", "*"), (S + "Input::from_owned", "*"), (S + "Input::iter", "*"), (O + "bytestrings_from_identifiers", "*"), (E + "construct_aad", "*"), (E + "Envelope::open", "sound"), (E + "Envelope::open_raw", "sound"), (T + "TripleDh::generate_ke2", "ctx_err"), (T + "TripleDh::generate_ke3", "sound"), (T + "TripleDh::generate_ke3", "ctx_err"), (O + "oprf_key_from_seed", "*"), (O + "ServerRegistration::start", "eval"), (O + "ServerLogin::start", "eval"), (O + "ClientLogin::finish", "sound_env"), (O + "ClientLogin::finish", "sound_mac")],
+        "clauses": [(S + "T::chain_iter", "*"), (S + "T::update_iter", "*"), (S + "Input::from", "*"), (S + "Input::from_owned", "*"), (S + "Input::iter", "*"), (O + "bytestrings_from_identifiers", "*"), (E + "construct_aad", "*"), (E + "Envelope::open", "sound"), (E + "Envelope::open_raw", "sound"), (T + "TripleDh::generate_ke2", "ctx_err"), (T + "TripleDh::generate_ke3", "sound"), (T + "TripleDh::generate_ke3", "ctx_err"), (O + "oprf_key_from_seed", "*"), (O + "ServerRegistration::start", "eval"), (O + "ServerLogin::start", "eval"), (O + "ClientLogin::finish", "sound_env"), (O + "ClientLogin::finish", "sound_mac")],
          "supporting": [(E + "Envelope::seal", "rfc"), (E + "Envelope::seal", "ok_iff"), (E + "Envelope::seal_raw", "*"), (E + "Envelope::open", "rfc"), (T + "TripleDh::generate_ke2", "rfc"), (O + "ServerLogin::start", "ke2"), (O + "ServerLogin::start", "mask"), (O + "ClientRegistration::finish", "rfc")],
          "theorems": ["thm_c05_login_binding", "thm_c05_envelope_binding", "thm_transcript_agreement", "lemma_preamble_injective", "lemma_cleartext_injective", "lemma_frame_split", "lemma_fixed_split", "lemma_i2osp2_inj", "lemma_i2osp2"],
         "kani": {"quick": [("leaf", "i2osp_u2_exact"), ("leaf", "i2osp_u1_exact")], "thorough": [("leaf", "input_from_iter_bounded"), ("leaf", "input_owned_iter_bounded"), ("leaf", "input_label_arrays_bounded")]},
@@ -147,7 +147,7 @@ PROPS["C05"] = {
 PROPS["C06"] = {
     "alternatives": [{
         "name": "envelope-binds-server-key",
-        "clauses": [(S + "UpdateExt::chain_iter", "*"), (S + "MacExt::update_iter", "*"), (O + "ServerRegistration::start", "pk"), (O + "ClientRegistration::finish", "pk_out"), (O + "ClientLogin::finish", "pk_out"), (O + "ClientLogin::finish", "sound_env"), (E + "Envelope::open", "sound"), (E + "Envelope::open_raw", "sound"), (O + "unmask_response", "*")],
+        "clauses": [(S + "T::chain_iter", "*"), (S + "T::update_iter", "*"), (O + "ServerRegistration::start", "pk"), (O + "ClientRegistration::finish", "pk_out"), (O + "ClientLogin::finish", "pk_out"), (O + "ClientLogin::finish", "sound_env"), (E + "Envelope::open", "sound"), (E + "Envelope::open_raw", "sound"), (O + "unmask_response", "*")],
          "supporting": [(O + "ServerSetup::new", "*"), (O + "ServerSetup::new_with_key", "*"), (K + "KeyPair::generate_random", "*"), (K + "KeyPair::public", "*"), (K + "KeyPair::private", "*"), (O + "ClientRegistration::finish", "rfc"), (O + "ServerLogin::start", "mask"), (E + "Envelope::seal", "rfc"), (O + "mask_response", "*"), (K + "PrivateKey::public_key", "*")],
          "theorems": ["thm_c05_envelope_binding", "thm_c01_honest_run", "lemma_cleartext_injective", "lemma_unmask"],
     }],
@@ -161,7 +161,7 @@ PROPS["C07"] = {
     "alternatives": [{
         "name": "matched-conversations",
         # (public keys enter the transcript re-encoded: a decoder that maps two spellings to one key lets an altered message complete on both sides)
-        "clauses": [(S + "UpdateExt::chain_iter", "*"), (S + "MacExt::update_iter", "*"), (O + "ClientLogin::finish", "sound_mac"), (O + "ServerLogin::finish", "*"), (T + "TripleDh::finish_ke", "*"), (T + "TripleDh::generate_ke3", "sound"), (O + "ServerLogin::start", "state"),
+        "clauses": [(S + "T::chain_iter", "*"), (S + "T::update_iter", "*"), (O + "ClientLogin::finish", "sound_mac"), (O + "ServerLogin::finish", "*"), (T + "TripleDh::finish_ke", "*"), (T + "TripleDh::generate_ke3", "sound"), (O + "ServerLogin::start", "state"),
                     (GE + "deserialize_pk", "canonical"), (K + "PublicKey::deserialize", "*"), (T + "Ke1Message::deserialize", "*"), (T + "Ke2Message::deserialize", "*")],
         "kani": {"quick": [("api", "x25519_pk_canonical")], "thorough": []},
          "supporting": [(O + "ClientLogin::finish", "rfc"), (O + "ServerLogin::start", "ke2"), (O + "ServerLogin::start", "tape"), (T + "TripleDh::generate_ke1", "*"), (T + "TripleDh::generate_ke2", "rfc"), (T + "TripleDh::generate_ke2", "tape"), (T + "TripleDh::generate_ke3", "rfc"), (O + "ClientLogin::start", "*"), (T + "generate_nonce", "*"), (K + "KeyPair::generate_random", "*")],
